@@ -75,8 +75,8 @@ class Check:
         targets = ["Properties/%s.vo" % module] + list(extra_targets)
         self.checker_cmd = "cd /verif/coq && coq_makefile -f _CoqProject -o Makefile && make -k -j16 " + " ".join(targets) + \
             "  (coqc 8.16.1, full .vo build; then Print Assumptions on every theorem of Properties/%s.v)" % module
-        ok, out = core.coq_make(targets, regen=regen)
         thms = core.theorems_of(vfile)
+        ok, out, pares = core.coq_make(targets, regen=regen, then=lambda: core.print_assumptions("Properties." + module, thms))
         if not ok:
             errs = re.findall(r'File "([^"]+)", line (\d+), characters [^\n]*\n(?:.*\n){0,12}?Error:?([^\n]*(?:\n[^\n]+){0,6})', out)
             first = None
@@ -103,7 +103,7 @@ class Check:
                       "proof obligation no longer checks: %s in %s" % (thm, where),
                       {"theorem": thm, "file": where, "coq_output_tail": out[-3000:]})
             return False
-        pa, paout = core.print_assumptions("Properties." + module, thms)
+        pa, paout = pares
         if pa is None:
             for t in thms:
                 self.obligation(t, False, "Print Assumptions failed")
